@@ -46,8 +46,11 @@ def echo_app(calls, fails):
     return app
 
 
-def serve_stream(kind, data, cuts, fault="none", fault_at=0, send_errno=errno.EPIPE, cfgkw=None):
-    """-> (events, info)"""
+PEERS = [("127.0.0.1", 45678), ("127.0.0.1", 45678), ("2001:db8::1", 5555, 0, 0), ("::1", 40000, 0, 7), "", "/run/client.sock", b""]
+
+
+def serve_stream(kind, data, cuts, fault="none", fault_at=0, send_errno=errno.EPIPE, cfgkw=None, peer=None):
+    """-> (events, info).  peer: what accept() reported for the client (IPv4 pair, IPv6 4-tuple, unnamed / bound unix)"""
     calls, fails = [], []
     app = echo_app(calls, fails)
     cfg = drv.make_cfg(keepalive=2, **(cfgkw or {}))
@@ -60,6 +63,10 @@ def serve_stream(kind, data, cuts, fault="none", fault_at=0, send_errno=errno.EP
         kw = {"eof_kind": "reset"}
     elif fault == "send":
         kw = {"send_fail_at": fault_at, "send_errno": send_errno}
+    if peer is not None:
+        kw["peer"] = tuple(peer) if isinstance(peer, list) else peer
+        if not isinstance(kw["peer"], tuple):
+            w.sockets[0].name = "/run/gunicorn.sock"
     r = drv.serve(kind, cfg, segs, app, worker=w, eof_dispatch=True, **kw)
     ncalls, nfails = len(calls), len(fails)
     # the same worker object must serve the next connection normally
@@ -261,11 +268,15 @@ def c05(ctx):
     traces, metas = [], []
 
     def add(kind, data, cuts, fault="none", fault_at=0, ms=None, cut=0, src="", send_errno=errno.EPIPE, cfgkw=None):
-        ev, info = serve_stream(kind, data, cuts, fault, fault_at, send_errno, cfgkw)
+        peer = rng.choice(PEERS)
+        if cfgkw and cfgkw.get("proxy_protocol"):
+            peer = PEERS[0]
+        ev, info = serve_stream(kind, data, cuts, fault, fault_at, send_errno, cfgkw, peer=peer)
         traces.append({"ms": ms or [], "cut": cut, "oracle": 1 if ms else 0,
                        "fault": "send" if fault == "send" else "recv" if fault.startswith("recv") else "none", "ev": ev})
         metas.append({"kind": kind, "bytes": data[:300].decode("latin-1"), "cuts": cuts[:10], "fault": fault,
-                      "fault_at": fault_at, "src": src, "escaped": info["escaped"], "wire": info["wire"], "cfgkw": cfgkw})
+                      "fault_at": fault_at, "src": src, "escaped": info["escaped"], "wire": info["wire"], "cfgkw": cfgkw,
+                      "peer": peer.decode() if isinstance(peer, bytes) else peer})
 
     # 1. grammar streams with the strict oracle (rejected heads, bad chunked bodies, truncation at every offset)
     fams = ["heads1", "chunks", "trunc"] + ([] if ctx.quick else ["heads2", "pipeline"])
@@ -360,7 +371,8 @@ def c05(ctx):
 def replay(ctx, data):
     m = data["case"]["meta"]
     t = data["case"]["trace"]
-    ev, info = serve_stream(m["kind"], m["bytes"].encode("latin-1"), m["cuts"], m["fault"], m["fault_at"], cfgkw=m.get("cfgkw"))
+    ev, info = serve_stream(m["kind"], m["bytes"].encode("latin-1"), m["cuts"], m["fault"], m["fault_at"], cfgkw=m.get("cfgkw"),
+                            peer=m.get("peer"))
     print("events:", ev, info)
     t = dict(t, ev=ev)
     verdicts, _ = tlc.validate_batch("ConnTrace", "ConnTrace.cfg", [t], name="ConnTrace_replay")
